@@ -3,10 +3,10 @@
 package main
 
 import (
-	"time"
 	"fmt"
 	"strings"
 	"testing"
+	"time"
 
 	"github.com/whawty/auth/zz_verif/vlib"
 	"pgregory.net/rapid"
